@@ -113,7 +113,7 @@ def floatTok (text : String) (finite : Bool) : DTok := if finite then .num text 
 /-- lexemes of `f"{op}{value}"` -/
 def unaryToks (o : UOp) (text : String) (finite : Bool) : List DTok :=
   match o with
-  | .not => if finite && text.all Char.isDigit then [.name ("not" ++ text)] else [.raw ("not" ++ text)]
+  | .not => if finite && text.toList.all Char.isDigit then [.name ("not" ++ text)] else [.raw ("not" ++ text)]
   | o => [.op o, floatTok text finite]
 
 mutual
@@ -250,5 +250,49 @@ end
 /-- no free name, no mis-lexed text: the default means the same in the stub as in the source -/
 def Closed (ts : List DTok) : Bool :=
   ts.all fun t => match t with | .name _ | .raw _ => false | _ => true
+
+/-! ### hypotheses of the provable parts, as decidable predicates on the initializer -/
+
+mutual
+/-- hypotheses of the provable part: no `not` operator; every bytes literal renders to one well-formed lexeme -/
+def DExpr.good : DExpr → Bool
+  | .bytes b => lexOk (renderBytes b)
+  | .unary o e => o != .not && e.good
+  | .tuple xs | .list xs | .set xs => xs.good
+  | .dict kvs => kvs.good
+  | _ => true
+def DList.good : DList → Bool
+  | .nil => true
+  | .cons x xs => x.good && xs.good
+def DPairs.good : DPairs → Bool
+  | .nil => true
+  | .cons k v rest => k.good && v.good && rest.good
+  | .spread v rest => v.good && rest.good
+end
+
+mutual
+/-- every float literal denotes a finite value -/
+def DExpr.finite : DExpr → Bool
+  | .float _ f => f
+  | .unary _ e => e.finite
+  | .tuple xs | .list xs | .set xs => xs.finite
+  | .dict kvs => kvs.finite
+  | _ => true
+def DList.finite : DList → Bool
+  | .nil => true
+  | .cons x xs => x.finite && xs.finite
+def DPairs.finite : DPairs → Bool
+  | .nil => true
+  | .cons k v rest => k.finite && v.finite && rest.finite
+  | .spread v rest => v.finite && rest.finite
+end
+
+/-- a lexeme CPython's tokenizer accepts as such -/
+def tokOk : DTok → Bool
+  | .raw _ => false
+  | .bytes t => lexOk t
+  | _ => true
+
+def LexOk (ts : List DTok) : Bool := ts.all tokOk
 
 end StubDefault
